@@ -20,6 +20,7 @@ type c19Setup struct {
 	x, y, z    world.PodSpec
 	tk, tu     world.PodSpec // pods of a scalable CRD kind / of a kind no CRD describes
 	rg         world.PodSpec // a pod that requests IP ranges
+	d1         world.PodSpec // replacement pod of a deployment with a reserved IP
 	zOld       []world.Event
 	dpReserve  bool
 	altConfig  string
@@ -32,6 +33,18 @@ func c19Prepare(w *world.World) *c19Setup {
 	sts.setWorkload(w, 3)
 	w.SetDeployment("ns", "d", 2)
 	w.SetPoolObj("pl", 2)
+	// a deployment (policy never) whose first pod is gone and handled: its IP is held under the app's reserve key, a replacement
+	// pod is waiting
+	dpc := wkClass{"dp", "never"}
+	d0 := dpc.pod(0)
+	w.CreatePod(d0)
+	mustSchedule(w, d0.Key())
+	w.DeletePod(d0.Key())
+	for len(w.Pending) > 0 {
+		w.Deliver(0)
+	}
+	s.d1 = dpc.pod(1)
+	w.CreatePod(s.d1)
 	s.x, s.y, s.z = sts.pod(0), sts.pod(1), sts.pod(2)
 	w.CreatePod(s.x)
 	w.CreatePod(s.y)
@@ -64,6 +77,9 @@ func c19Entries(s *c19Setup) map[string]func() {
 		"filter": func() { _, _ = w.Filter(s.x.Key()) },
 		// a filter for the re-created z, whose IP is still held under its key by the old incarnation
 		"filter-z": func() { _, _ = w.Filter(s.z.Key()) },
+		// the replacement pod of the deployment is filtered: the reserved IP is re-keyed to it (under the app's lock, not the
+		// lock of the reserve key the release API takes)
+		"filter-dp-replacement": func() { _, _ = w.Filter(s.d1.Key()) },
 		// a filter for a pod that requests ranges (walks the ranges under the table lock)
 		"filter-ranges": func() { _, _ = w.Filter(s.rg.Key()) },
 		// Preempt runs without the pod's lock: for the re-created z it reads the entries its old incarnation's events write
@@ -142,7 +158,7 @@ func c19IPAMScenarios(tier string) []*Scenario {
 			out = append(out, mk([]string{names[i], names[j]}))
 		}
 	}
-	for _, pr := range [][]string{{"filter-ranges", "bind"}, {"filter-ranges", "unbind"}, {"filter-ranges", "reload"}, {"filter-ranges", "release"}, {"filter-ranges", "filter-ranges"}, {"preempt-z", "unbind"}, {"preempt-z", "resync"}, {"preempt-z", "release"}, {"preempt-z", "reload"}, {"filter-z", "unbind"}, {"filter-z", "resync"}, {"filter-z", "release"}, {"filter-y", "bind"}, {"filter-y", "update-running"}, {"filter-crd-known", "filter-crd-unknown"}, {"filter-crd-unknown", "filter-crd-unknown"}, {"filter-crd-known", "filter-crd-known"},
+	for _, pr := range [][]string{{"filter-dp-replacement", "release"}, {"filter-dp-replacement", "resync"}, {"filter-dp-replacement", "list"}, {"filter-ranges", "bind"}, {"filter-ranges", "unbind"}, {"filter-ranges", "reload"}, {"filter-ranges", "release"}, {"filter-ranges", "filter-ranges"}, {"preempt-z", "unbind"}, {"preempt-z", "resync"}, {"preempt-z", "release"}, {"preempt-z", "reload"}, {"filter-z", "unbind"}, {"filter-z", "resync"}, {"filter-z", "release"}, {"filter-y", "bind"}, {"filter-y", "update-running"}, {"filter-crd-known", "filter-crd-unknown"}, {"filter-crd-unknown", "filter-crd-unknown"}, {"filter-crd-known", "filter-crd-known"},
 		{"filter-crd-unknown", "resync"}, {"filter-crd-known", "reload"}, {"filter-crd-unknown", "bind"}} {
 		out = append(out, mk(pr))
 	}
